@@ -13,7 +13,8 @@ pub fn check(cx: &Cx, rep: &mut Report) {
     let tms = timers(cx);
     let mut nontrivial = false;
     for af in fx.values() {
-        let Some(decl) = af.decl else { continue };
+        // (a service that the registry spawned itself is an ordinary default-strategy actor)
+        let Some(decl) = af.decl.or(af.svc_decl) else { continue };
         if decl.entry.stream() {
             continue;
         }
